@@ -447,8 +447,149 @@ fn close_race(rep: &mut Report, iterations: u32, seed: u64) {
     }
 }
 
+// ------------------------------------------------------------------ what gets merged (MetadataUpdate)
+
+#[derive(Debug, Clone, Copy, PartialEq, Eq, Serialize, Deserialize)]
+pub enum MOp {
+    /// a full metadata fetch completes (`requested`: on behalf of an explicit refresh request)
+    Full { requested: bool },
+    /// a topology-only fetch completes
+    Topology,
+    Hint { addr: u8, up: bool },
+    /// the cluster worker takes what is pending and publishes it
+    Take,
+}
+
+/// The real `MetadataUpdate::merge_*` functions through the real channel against a model of what the
+/// cluster worker must get to see.
+pub fn merge_oracle(ops: &Vec<MOp>) -> Verdict {
+    use scylla::verif::metadata_update as mu;
+    let (mut tx, mut rx) = mu::channel();
+    let addr = |i: u8| std::net::SocketAddr::from(([10, 0, 0, i % 4 + 1], 9042));
+    let mut next_tag = 1u64;
+    // model of the pending value
+    let mut m_full: Option<u64> = None;
+    let mut m_peers: Option<u64> = None;
+    let mut m_hints: std::collections::BTreeMap<std::net::SocketAddr, bool> = Default::default();
+    let mut m_requests = 0usize;
+    // tickets of requests merged since the last take / already answered
+    let mut open_tickets: Vec<(u64, mu::RefreshTicket)> = vec![];
+    let mut overwritten_full = 0usize;
+    let mut partial_over_full = 0usize;
+    let mut takes = 0usize;
+    let mut ops_all: Vec<MOp> = ops.clone();
+    ops_all.push(MOp::Take);
+    for (step, op) in ops_all.iter().enumerate() {
+        match op {
+            MOp::Full { requested } => {
+                let tag = next_tag;
+                next_tag += 1;
+                let t = tx.full_fetch(tag, *requested).map_err(|()| bad("modify_failed", format!("step {step}: the consumer is alive but merging failed")))?;
+                if m_full.is_some() {
+                    overwritten_full += 1;
+                }
+                m_full = Some(tag);
+                m_peers = Some(tag);
+                if let Some(t) = t {
+                    m_requests += 1;
+                    open_tickets.push((tag, t));
+                }
+            }
+            MOp::Topology => {
+                let tag = next_tag;
+                next_tag += 1;
+                tx.topology_fetch(tag).map_err(|()| bad("modify_failed", format!("step {step}")))?;
+                if m_full.is_some() {
+                    partial_over_full += 1;
+                }
+                m_peers = Some(tag);
+            }
+            MOp::Hint { addr: a, up } => {
+                tx.status_hint(addr(*a), *up).map_err(|()| bad("modify_failed", format!("step {step}")))?;
+                m_hints.insert(addr(*a), *up);
+            }
+            MOp::Take => {
+                let pending = m_full.is_some() || m_peers.is_some() || !m_hints.is_empty();
+                let got = rx.try_take();
+                // requests must not be answered (or dropped) before their metadata is taken
+                for (tag, t) in open_tickets.iter_mut() {
+                    let st = t.state();
+                    vassert!(st.is_none(), "refresh_settled_early", "step {step}: the refresh request merged with fetch {tag} was {} before the cluster worker took the update", if st == Some(true) { "answered" } else { "dropped" });
+                }
+                match (pending, got) {
+                    (false, None) => {}
+                    (false, Some(_)) => return Err(bad("phantom_update", format!("step {step}: an update was received although nothing was merged since the last one"))),
+                    (true, None) => return Err(bad("update_lost", format!("step {step}: merged updates are pending (full {m_full:?}, topology {m_peers:?}, hints {m_hints:?}) but nothing was received"))),
+                    (true, Some(t)) => {
+                        takes += 1;
+                        let want_kind = if m_full.is_some() { mu::Kind::Full } else if m_peers.is_some() { mu::Kind::Partial } else { mu::Kind::HintsOnly };
+                        vassert_eq!(t.kind, want_kind, "update_kind", "step {step}");
+                        vassert_eq!(t.full_tag, m_full, "stale_full_fetch", "step {step}: the received update must carry the latest full fetch merged since the previous take");
+                        vassert_eq!(t.peers_tag, m_peers, "stale_topology", "step {step}: the received update must carry the topology fetched last (full or topology-only)");
+                        vassert_eq!(t.hints, m_hints.iter().map(|(a, u)| (*a, *u)).collect::<Vec<_>>(), "status_hints", "step {step}: latest hint per address");
+                        vassert_eq!(t.refresh_requests(), m_requests, "refresh_requests_carried", "step {step}: every refresh request merged since the previous take travels with the update, exactly once");
+                        t.answer_all();
+                        for (tag, mut tk) in open_tickets.drain(..) {
+                            vassert_eq!(tk.state(), Some(true), "refresh_unanswered", "step {step}: the refresh request merged with fetch {tag} was not answered when its update was published");
+                        }
+                        m_full = None;
+                        m_peers = None;
+                        m_hints.clear();
+                        m_requests = 0;
+                    }
+                }
+            }
+        }
+    }
+    Ok(CaseInfo::new(overwritten_full > 0 || partial_over_full > 0)
+        .class_if(overwritten_full > 0, "full_fetch_over_pending_full")
+        .class_if(partial_over_full > 0, "topology_fetch_over_pending_full")
+        .class(format!("takes{}", takes.min(4))))
+}
+
+fn mop() -> impl Strategy<Value = MOp> {
+    prop_oneof![
+        4 => any::<bool>().prop_map(|requested| MOp::Full { requested }),
+        2 => Just(MOp::Topology),
+        2 => (0u8..4, any::<bool>()).prop_map(|(addr, up)| MOp::Hint { addr, up }),
+        3 => Just(MOp::Take),
+    ]
+}
+
+fn merge_exhaustive(rep: &mut Report, max_len: usize) {
+    let alphabet = [MOp::Full { requested: true }, MOp::Full { requested: false }, MOp::Topology, MOp::Hint { addr: 0, up: true }, MOp::Hint { addr: 0, up: false }, MOp::Take];
+    let mut st = Stats::default();
+    let mut fails = vec![];
+    let mut cur: Vec<usize> = vec![];
+    // all words over the alphabet up to max_len
+    loop {
+        let ops: Vec<MOp> = cur.iter().map(|i| alphabet[*i]).collect();
+        eval_direct(&mut st, &mut fails, &ops, merge_oracle);
+        // next word (odometer, growing length)
+        let mut i = cur.len();
+        loop {
+            if i == 0 {
+                cur = vec![0; cur.len() + 1];
+                break;
+            }
+            i -= 1;
+            if cur[i] + 1 < alphabet.len() {
+                cur[i] += 1;
+                for c in cur.iter_mut().skip(i + 1) {
+                    *c = 0;
+                }
+                break;
+            }
+        }
+        if cur.len() > max_len {
+            break;
+        }
+    }
+    finish_direct(rep, "merge_exhaustive", st, fails, true);
+}
+
 pub fn run(ctx: &Ctx, rep: &mut Report) {
-    rep.rule = "Histories over the real merge channel driven single-threaded with a counting waker: producer {merge, touch, retract, drop} x consumer {start recv, poll, cancel, try_recv, drop}; all histories up to the length bound enumerated by DFS (exhaustive), longer ones generated; a reference model (slot + flags) states what each poll may return and when a parked waker must have fired. Plus a 2-thread stress (producer thread, consumer task with randomly cancelled recv()). Non-trivial = a cancel or sender drop while a value is pending, or a merge between two polls. For stress: more than one and fewer than N batches.".into();
+    rep.rule = "Histories over the real merge channel driven single-threaded with a counting waker: producer {merge, touch, retract, drop} x consumer {start recv, poll, cancel, try_recv, drop}; all histories up to the length bound enumerated by DFS (exhaustive), longer ones generated; a reference model (slot + flags) states what each poll may return and when a parked waker must have fired. Plus a 2-thread stress (producer thread, consumer task with randomly cancelled recv()). merge: the metadata worker's own merge functions (full fetch with/without an explicit refresh request, topology-only fetch, up/down hints) applied through the real channel in generated and exhaustively enumerated (length <= 6/8) orders with takes in between; a model states what each received update must carry: the latest full fetch, the topology fetched last, the latest hint per address, and every refresh request merged since the previous take exactly once - answered when, and not before, its update is published. Non-trivial = a cancel or sender drop while a value is pending, or a merge between two polls. For stress: more than one and fewer than N batches.".into();
     rep.trusted_base = vec!["slot-and-flags reference model; std::task::Wake counting waker".into()];
     rep.assumptions = vec![
         "spurious wake-ups are allowed (only missing ones are violations)".into(),
@@ -459,6 +600,8 @@ pub fn run(ctx: &Ctx, rep: &mut Report) {
             close_race(rep, case["iterations"].as_u64().unwrap_or(200_000) as u32, case["seed"].as_u64().unwrap_or(0));
         } else if check == "stress" {
             stress(rep, case["merges"].as_u64().unwrap_or(100_000) as u32, case["seed"].as_u64().unwrap_or(0));
+        } else if check == "merge" || check == "merge_exhaustive" {
+            replay_case::<Vec<MOp>, _>(rep, check, case, merge_oracle);
         } else {
             replay_case::<Vec<Op>, _>(rep, check, case, oracle);
         }
@@ -480,6 +623,9 @@ pub fn run(ctx: &Ctx, rep: &mut Report) {
         || proptest::collection::vec(proptest::sample::select(ALL_OPS.to_vec()), 0..60),
         oracle,
     );
+    // what is merged: the metadata worker's own merge functions through the channel
+    merge_exhaustive(rep, ctx.tier.pick(6, 8));
+    run_prop_par(rep, "merge", ctx.tier.pick(100_000, 5_000_000), ncpu(), || proptest::collection::vec(mop(), 0..40), merge_oracle);
     let (n, reps) = ctx.tier.pick((1_000_000u32, 8u64), (10_000_000u32, 32u64));
     for r in 0..reps {
         stress(rep, n, ctx.seed.wrapping_add(r));
